@@ -19,6 +19,14 @@ add("C01", E2,
     "Runtime monitor: real TableManager + real PeerSession (on_established, handle_prefix_update, do_route_refresh, flush_tx) over a loopback TCP pair; seeded histories of announce / withdraw / peer-down / GR stale+purge / LLGR mark+purge / next-hop flap / export-policy change + soft reset out / import-policy change + soft reset in / route refresh, interleaved with partial event delivery and flushes, for all 5 neighbour roles, Add-Path send-max 1-3, 1/2/4 shards, observer optionally a source itself. Bytes read from the client socket are decoded by the peer-side codec into a mirror Adj-RIB-In; at each quiescent check point the mirror must equal what a brand-new session with identical parameters is sent (which then becomes the next observer). Failing histories are delta-debugged.",
     "Trusted: the peer-side decode (repo codec, negotiate(remote,local)) and the quiescence procedure (KEEPALIVE sentinel through the same socket). Sequential histories; source peers are TableManager calls in the daemon's own call order.",
     "runtime monitoring: differential oracle (incremental view vs fresh-session dump) over generated histories with delivery/flush interleavings")
+add("C04", E1,
+    "Runtime monitor: Message values over all 19 real address families (entry counts from 0 to several frames, family-maximum NLRI sizes, attribute blocks grown to and past the frame limit, OPENs around the 253-byte limit, values obtained by decoding hand-written wire forms) are encoded by the real encode_to under 256 ordered pairs of capability sets; an independent framer + structural walker checks marker, lengths, negotiated maximum, mutual consistency and frame count; the peer's negotiated codec must decode the same multiset of (prefix, path-id), next hop and attributes up to the documented canonicalisation; decode(encode(x')) is a fixed point. Debug+release, ASan in thorough.",
+    "Trusted: the independent walker and the canonicalisation rules (extended-length bit, order, AS4 reconciliation per RFC 6793); lossy cases RFC 6793 itself allows are counted unjudged.",
+    "runtime monitoring: independent structural decoder + differential round-trip oracle over generated messages x capability pairs")
+add("C06", E1,
+    "Runtime monitor: histories of protocol events (session up/down with GR/LLGR, update, withdraw, timers, EOR, next-hop flips, start/end deferral) are turned into Table calls in the daemon's own order; four consumers (best-only, add-path top-2/top-3, all) fold the NlriChange stream exactly as process_nlri_change does and after every call each folded view must equal collect_loc_rib_paths[_limited] (no-miss, no-phantom), destination ids must be injective over live prefixes, and end_deferral must announce every held prefix. Failing histories are shrunk. Debug+release, Miri slice.",
+    "Trusted: the consumer fold transcribed from export.rs (no stricter than the real consumers); views of a family during deferral are only judged at end_deferral.",
+    "runtime monitoring: stream-fold vs ground-truth recount after every step of generated histories")
 add("C05", E1,
     "Runtime monitor (packet level): valid UPDATE templates (legacy + MP families, eBGP/iBGP/confed, 2-/4-octet AS, ADD-PATH) are corrupted by a recording RFC 7606 fault engine (flags, length, value, duplication, omission, unknown well-known, truncation, iBGP-only attributes on eBGP, MP faults; up to 4 faults per UPDATE) and pushed through the real try_parse + validate_message; an oracle computed from the fault record and an independent TLV walk decides never-installs / treat-as-withdraw / discard / withdrawals-survive / reset-only-if-must / ebgp-filter / no-panic. Debug+release; Miri slice in thorough.",
     "Trusted: the fault classification (Benign/Discardable/MustWithdraw) written from the statement + RFC 7606; where RFC 7606 leaves a choice every permitted outcome is accepted (listed in the evidence assumptions). The end-to-end RIB half is not part of this check yet.",
@@ -35,6 +43,10 @@ add("C19", E1,
     "Runtime monitor (packet level): generated BMP (PeerUp/PeerDown/RouteMonitoring for 19 families, add-path, L/O flags, peer types, 1..113000 NLRI) and MRT (BGP4MP, TABLE_DUMP_V2 peer index + RIB records) events are encoded by the real BmpCodec / MrtCodec / encode_table_dump and read back by independent structural readers written from RFC 7854/8671/9069 and RFC 6396/8050 (lengths, V flag / AFI vs addresses, exactly one PDU per record, peer indexes, entry counts); the embedded PDUs are parsed with the repo's own BGP parser and must give back the monitored prefixes, attributes and next hop. ASan pass in thorough. The daemon-side converters are not part of this check yet.",
     "Trusted: the independent readers; an event is only judged if a plain BGP session codec of the repo round-trips it (otherwise it is C04's subject and counted unjudged).",
     "runtime monitoring: independent structural decoder + round-trip oracle over generated records (ASan in thorough)")
+add("C09", E2,
+    "Runtime monitor: the full source-kind x receiver-role x cluster x confederation matrix (360 cells incl. echo variants) crossed with a covering set + random attribute vectors (every AS_PATH segment type, full 255-AS segment, next-hop kinds, MED, LOCAL_PREF, ORIGINATOR_ID, CLUSTER_LIST, AIGP, communities, opaque attributes, LLGR-stale sources, policy next-hop/MED actions) through both branches of the real process_nlri_change with a recording sink, judged by an expected_export function written from the statement; inbound is_as_loop / rx_update loop checks with the RIB read back; role and cluster-id derivation through accept_connection on TOML neighbour configs.",
+    "Trusted: expected_export (Suppress | Send{attrs', nexthop'}); where the statement is silent (RS-client transparency, confed MED/next hop, policy MED on eBGP, LLGR to non-LLGR peers) nothing is judged. Debug profile only (E2).",
+    "runtime monitoring: reference-function oracle over an enumerated configuration matrix x generated attribute vectors")
 add("C18", E2,
     "Runtime monitor on real threads: writer sessions (insert/remove/peer drop+re-up), a controller toggling import policy + soft_reset_in, and subscribers that subscribe/unsubscribe at random points run against the real TableManager with delay injection at the hook points between critical sections; after quiescence each subscription's folded event stream must equal iter_reach / iter_reach_post. Thorough adds ThreadSanitizer and Miri (different schedules per -Zmiri-seed). Schedules are sampled, not enumerated.",
     "Trusted: the fold (insert on reach, remove on withdraw, PeerDown clears the peer) and the ground truth read through the table's own iterators; GR stale retention not in scope.",
